@@ -850,6 +850,41 @@ func main() {
 	rnames := []string{"DoResolveFields", "lookupStructTag", "trimSpaces", "doParseType", "doParseSlice", "doMatchStruct", "readToken", "newStructDesc", "tField.fromDefsField"}
 	rfds := []*ast.FuncDecl{findFunc(df, "DoResolveFields"), findFunc(df, "lookupStructTag"), findFunc(df, "trimSpaces"), findFunc(df, "doParseType"), findFunc(df, "doParseSlice"), findFunc(df, "doMatchStruct"), findFunc(df, "readToken"), findFunc(rf, "newStructDesc"), findMethod(rf, "tField", "fromDefsField")}
 	w("  resolverSkeleton := \"%s\"\n", skeletonHash("resolver", rfds, rnames, &skDump))
+	// the descriptor tables every codec theorem takes for granted (field index by id, required ids,
+	// offsets, per-field flags and fixed sizes, the type node's tag / size / alignment / element nodes):
+	// full normalised text of the declarations and of the functions that fill them in
+	{
+		h := sha256.New()
+		fmt.Fprintf(&skDump, "-- descTable\n")
+		add := func(label string, n ast.Node) {
+			t := "<missing>"
+			if n != nil && !(reflect_isNil(n)) {
+				t = strings.Join(strings.Fields(src(n)), " ")
+			}
+			fmt.Fprintf(h, "%s\n%s\n--\n", label, t)
+			fmt.Fprintf(&skDump, "--   %s: %s\n", label, t)
+		}
+		for _, tn := range []string{"structDesc", "tField", "tType"} {
+			var spec ast.Node
+			for _, f := range rf.sorted() {
+				for _, d := range f.Decls {
+					if gd, ok := d.(*ast.GenDecl); ok && gd.Tok == token.TYPE {
+						for _, sp := range gd.Specs {
+							if ts := sp.(*ast.TypeSpec); ts.Name.Name == tn {
+								spec = ts
+							}
+						}
+					}
+				}
+			}
+			add("type "+tn, spec)
+		}
+		add("structDesc.fromDefsFields", findMethod(rf, "structDesc", "fromDefsFields"))
+		add("tField.fromDefsField", findMethod(rf, "tField", "fromDefsField"))
+		add("structDesc.GetField", findMethod(rf, "structDesc", "GetField"))
+		add("newTType", findFunc(rf, "newTType"))
+		w("  descTableSkeleton := \"%s\"\n", fmt.Sprintf("%x", h.Sum(nil))[:24])
+	}
 	skeletonText = skDump.String()
 	top := findFunc(rf, "Decode")
 	w("  topLevelUsesLimit := %v\n", contains(top, `d\.Decode\(b, rv\.UnsafePointer\(\), sd, maxDepthLimit\)`))
@@ -1200,6 +1235,17 @@ func descriptorWrites(fd *ast.FuncDecl) []string {
 		return true
 	})
 	return out
+}
+
+// reflect_isNil: a typed nil *ast.FuncDecl / *ast.TypeSpec inside an ast.Node interface
+func reflect_isNil(n ast.Node) bool {
+	switch x := n.(type) {
+	case *ast.FuncDecl:
+		return x == nil
+	case *ast.TypeSpec:
+		return x == nil
+	}
+	return false
 }
 
 func mustExpr(s string) ast.Expr {
